@@ -42,12 +42,14 @@ pub fn o_robust_inc(input: &[u8], p: &P) -> Out {
 	let mut out = Out { transitions: 0, nontrivial: true, ..Default::default() };
 	let mut r = EnvReader::new(input, Sched::Full);
 	let mut transitions = 0u64;
+	let opts_val = slp_opts(p.skip, p.hash);
+	let opts = if p.skip || p.hash { Some(&opts_val) } else { None };
 	let res = catch(|| -> Result<u64, String> {
-		let size = de::parse_header(&mut r, None).map_err(|e| e.to_string())? as usize;
-		let mut state = de::parse_start(&mut r, None).map_err(|e| e.to_string())?;
+		let size = de::parse_header(&mut r, opts).map_err(|e| e.to_string())? as usize;
+		let mut state = de::parse_start(&mut r, opts).map_err(|e| e.to_string())?;
 		let mut n = 0u64;
 		loop {
-			let code = de::parse_event(&mut r, &mut state, None).map_err(|e| e.to_string())?;
+			let code = de::parse_event(&mut r, &mut state, opts).map_err(|e| e.to_string())?;
 			transitions += 1;
 			n = fnv_mix(n, code as u64);
 			// the README prints the current frame number after every event
@@ -61,7 +63,7 @@ pub fn o_robust_inc(input: &[u8], p: &P) -> Out {
 		}
 		let mut b = [0u8; 1];
 		if r.read_exact(&mut b).is_ok() && b[0] == 0x55 {
-			de::parse_metadata(&mut r, &mut state, None).map_err(|e| e.to_string())?;
+			de::parse_metadata(&mut r, &mut state, opts).map_err(|e| e.to_string())?;
 		}
 		Ok(n)
 	});
@@ -619,8 +621,10 @@ fn run_dev(doc: &Doc, v: (u8, u8), devs: &[Dev], base: &'static str, local: &mut
 		eval_case("robust", o_robust, &bytes, &p, || format!("{} {}", base, label_devs), local);
 	}
 	if inc {
-		let p = P { class, ..Default::default() };
-		eval_case("robust_inc", o_robust_inc, &bytes, &p, || format!("{} {}", base, label_devs), local);
+		for skip in [false, true] {
+			let p = P { skip, class, ..Default::default() };
+			eval_case("robust_inc", o_robust_inc, &bytes, &p, || format!("{} {} (incremental, skip option {})", base, label_devs, skip), local);
+		}
 	}
 }
 
